@@ -209,9 +209,19 @@ func (r *standardRenderer) flush() {
 		r.queuedMessageLines = []string{}
 	}
 
+	// When the new frame has fewer lines than the last one, the left over
+	// lines are erased from the start of the last new line, before it is
+	// painted: erasing after painting would also take the end of that line
+	// with it (or all of it, when it is skipped).
+	shrinking := r.lastLinesRendered() > len(newLines)
+	erasedBelow := false
+
 	// Paint new lines.
 	for i := 0; i < len(newLines); i++ {
+		eraseBelow := shrinking && i == len(newLines)-1
+
 		canSkip := !flushQueuedMessages && // Queuing messages triggers repaint -> we don't have access to previous frame content.
+			!eraseBelow && // The last line is repainted after erasing what is below it.
 			len(r.lastRenderedLines) > i && r.lastRenderedLines[i] == newLines[i] // Previously rendered line is the same.
 
 		if _, ignore := r.ignoreLines[i]; ignore || canSkip {
@@ -226,6 +236,12 @@ func (r *standardRenderer) flush() {
 			// On first render, reset the cursor to the start of the line
 			// before writing anything.
 			buf.WriteByte('\r')
+		}
+
+		if eraseBelow {
+			// Clearing left over content from last render.
+			buf.WriteString(ansi.EraseScreenBelow)
+			erasedBelow = true
 		}
 
 		line := newLines[i]
@@ -258,8 +274,8 @@ func (r *standardRenderer) flush() {
 		}
 	}
 
-	// Clearing left over content from last render.
-	if r.lastLinesRendered() > len(newLines) {
+	// The last line was not painted by us (it is an ignored line).
+	if shrinking && !erasedBelow {
 		buf.WriteString(ansi.EraseScreenBelow)
 	}
 
